@@ -110,7 +110,10 @@ def accessor(loc, n):
     """-> dict(obj, name, persp, node) if n is `obj.name<persp>()` (member call without arguments), else None"""
     n = loc.resolve(n)
     if n is not None and n.get("k") == "MCall" and not n.get("a"):
-        return {"obj": objkey(n.get("obj")), "name": n.get("n"), "persp": perspective(n), "node": n, "cls": n.get("ccls", "")}
+        o = n.get("obj")
+        if o is not None and strip(o).get("k") == "Ref" and strip(o).get("dk") == "local":
+            o = loc.resolve(o)          # `const DenseVector& xx = x;  xx.elements()`
+        return {"obj": objkey(o), "name": n.get("n"), "persp": perspective(n), "node": n, "cls": n.get("ccls", "")}
     return None
 
 
@@ -156,7 +159,7 @@ def counting_loop(n):
     v = init["vars"][0]
     if v.get("init") is None:
         return None
-    if c.get("k") != "Bin" or c.get("op") != "<":
+    if c.get("k") != "Bin" or c.get("op") not in ("<", "!="):
         return None
     l = strip(c["lhs"])
     if l.get("k") != "Ref" or l.get("d") != v["d"]:
